@@ -202,6 +202,65 @@ def parsePre (s : String) (hdrLen bodyLen : Nat) : Option Leftovers :=
     pure ⟨lh, lb, lm⟩
   | _ => none
 
+/-! ### `fleet`: several queue blocks, several messages, a restart, a process that dies while storing
+
+`C10 fleet Q=<hex name>:<d|e|i>:<par>,... M=<block>:<tag>:<o|t|g>:<body len>:<extra fields>:<x|0-4>:<s|v>,...`
+(`v`: the next message is stored before this one is committed - the order of the store operations and of the
+Commits is the order of the list either way, which is all the model depends on)
+(see harness/internal/target/queue/zz_verif_c10_fleet_test.go).  Output: per phase and block the messages
+the block's next hop is handed (index; `?flt<tag>` = something the block never accepted). -/
+open MaddyVerif.SpoolFleet in
+def parseBlock (s : String) : Option Block :=
+  match s.splitOn ":" with
+  | [name, loc, par] => do
+    let n ← unhexBytes? name
+    let l ← (match loc with | "d" => some Loc.dflt | "e" => some Loc.directive | "i" => some Loc.inline | _ => none)
+    let p ← par.toNat?
+    if p == 0 then none else pure { name := n, loc := l, par := p }
+  | _ => none
+
+open MaddyVerif.SpoolFleet in
+def parseFleetMsg (nblocks : Nat) (s : String) : Option Msg :=
+  match s.splitOn ":" with
+  | [q, tag, fate, blen, nf, snap, ov] => do
+    let _ ← (if ov == "s" || ov == "v" then some () else none)
+    let q ← q.toNat?
+    let tag ← tag.toNat?
+    let _ ← blen.toNat?
+    let _ ← nf.toNat?
+    let f ← (match fate with | "o" => some Fate.taken | "t" => some Fate.deferred | "g" => some Fate.hangs | _ => none)
+    let crash ← (if snap == "x" then some false else
+      match snap.toNat? with
+      | some n => if n ≤ 4 then some true else none
+      | none => none)
+    if q < nblocks then pure { q := q, tag := tag, fate := f, crash := crash } else none
+  | _ => none
+
+open MaddyVerif.SpoolFleet in
+def fateLetter : Fate → String
+  | .taken => "o" | .deferred => "t" | .hangs => "g"
+
+open MaddyVerif.SpoolFleet in
+def fleetLabels (k : Nat) (es : List Entry) : String :=
+  ".".intercalate (((es.filter fun e => e.q == k).map fun e => toString e.idx) ++
+    ((es.filter fun e => !(e.q == k)).map fun e => s!"?flt{e.tag}"))
+
+open MaddyVerif.SpoolFleet in
+def handleFleet (qs ms : String) : Option String := do
+  let bs ← (qs.splitOn ",").mapM parseBlock
+  let msgs ← (ms.splitOn ",").mapM (parseFleetMsg bs.length)
+  let st := phase1 bs msgs
+  let ims := (List.range msgs.length).zip msgs
+  let blocks := List.range bs.length
+  let p1 := blocks.map fun k =>
+    ".".intercalate ((ims.filter fun im => im.2.q == k).map fun im => s!"{im.1}{fateLetter im.2.fate}")
+  let p2 := blocks.map fun k => fleetLabels k (handedAfterRestart bs (atRest st) k)
+  let p3 := st.leftBehind.map fun (i, es) =>
+    match msgs[i]? with
+    | some m => s!"{i}:{fleetLabels m.q es}"
+    | none => s!"{i}:"
+  pure s!"p1[{";".intercalate p1}] p2[{";".intercalate p2}] p3[{";".intercalate p3}]"
+
 def handleRun (hist hdr body : String) (rest0 : List String) : Option String := do
   -- op lines recorded before the bounce pipeline / second queue were added: no bounce pipeline, one queue
   let rest1 := if rest0.length == 8 then rest0 ++ ["dsn=0", "X=-", "peer=-"] else rest0
@@ -252,6 +311,8 @@ def handle : List String → String
       s!"{showRead r} same={same} wf={wf}"
     | none => "bad-op"
   | "run" :: hist :: hdr :: body :: rest => (handleRun hist hdr body rest).getD "bad-op"
+  | ["fleet", qs, ms] =>
+    if qs.startsWith "Q=" && ms.startsWith "M=" then (handleFleet (String.ofList (qs.toList.drop 2)) (String.ofList (ms.toList.drop 2))).getD "bad-op" else "bad-op"
   | _ => "bad-op"
 
 end Driver.C10
